@@ -23,11 +23,13 @@ LEAN_TARGETS = ["NauyacaVerif.Props.C03"]
 THEOREMS = [f"NauyacaVerif.C03.{t}" for t in (
     "connect_accept_iff", "connect_first_use", "connect_changed", "connect_unreadable", "connect_frame", "op_frame",
     "history_sound", "history_pinned", "redirect_every_hop", "redirect_follow_checked", "tofu_off",
-    "import_new", "import_conflict_skipped")]
+    "first_use_race", "import_new", "import_conflict_skipped")]
 EXTRACT: list[str] = []
 ASSUMPTIONS = [
     "parameters of the model (not verified): the TLS handshake itself (OpenSSL/ssl delivers the peer's DER certificate unchanged through getpeercert(binary_form=True)), X.509 parsing (cryptography.x509: a certificate either loads or raises), SHA-256 (hashlib), SQLite (one row per (hostname, port); a committed statement is durable)",
     "a fingerprint is an opaque value in the model (Nat); two certificates are 'the same' iff their sha256(DER) strings are equal — the harness checks this with fingerprints that differ only in the last hex digit / only in the second half",
+    "overlapping calls (asyncio.gather on one client, or two clients on one store) are modelled as ANY serialisation of their connects: verify + trust of one connection is assumed to be one uninterrupted step; the harness runs overlapping first connections with different certificates against a slowed-down store to check it",
+    "the certificate pool includes an expired and a not-yet-valid certificate: the validity period is not part of the model (the property does not mention it), so the code must treat them like any other certificate",
     "hosts are the names localhost / 127.0.0.1 / 127.0.0.2 (three different TOFU keys served by the same scripted loopback peers) on two ports bound per process",
 ]
 LEVEL_TEXT = ("Lean 4 theorems over a hand-written model of the post-handshake pin check (GeminiClient._get_single / upload) and of "
@@ -43,17 +45,20 @@ TECHNIQUE = "interactive theorem proving (Lean 4, induction over histories) + mo
 SHM = "/dev/shm" if os.path.isdir("/dev/shm") and os.access("/dev/shm", os.W_OK) else None
 
 HOSTS = ["localhost", "127.0.0.1", "127.0.0.2"]
-CERTS = ["rsa", "ec", "ed", "hostile"]           # certificate index -> name in the peer's CertStore
-N_FP = 6                                          # fingerprint ids: 0..3 = the certificates, 4/5 = near misses of 0/1
+# certificate index -> name in the peer's CertStore; 4 = expired (notAfter in the past), 5 = not valid yet
+CERTS = ["rsa", "ec", "ed", "hostile", "expired", "notyet"]
+CERT_FP = [0, 1, 2, 3, 6, 7]                      # fingerprint id of each certificate
+READABLE = [0, 1, 2, 4, 5]                        # certificates cryptography.x509 can load
+N_FP = 8                                          # fingerprint ids: 0..3, 6, 7 = the certificates, 4/5 = near misses of 0/1
 
 
 def fp_table(w) -> list[str]:
     c = w["certs"]
-    f = [c[n].fingerprint for n in CERTS]
+    f = [c[n].fingerprint for n in CERTS[:4]]
     f0, f1 = f[0], f[1]
     near0 = f0[:-1] + ("0" if f0[-1] != "0" else "1")                      # differs in the last hex digit only
     near1 = f1[:7 + 32] + "".join("0" if ch != "0" else "1" for ch in f1[7 + 32:])   # same first half
-    return f + [near0, near1]
+    return f + [near0, near1] + [c[n].fingerprint for n in CERTS[4:]]
 
 
 # ----------------------------------------------------------------------------
@@ -61,7 +66,7 @@ def fp_table(w) -> list[str]:
 # ----------------------------------------------------------------------------
 def _presented(cert: int, patch: str):
     """model view of what the client can read: fingerprint id or None (unreadable)"""
-    return None if (cert == 3 or patch) else cert
+    return None if (cert == 3 or patch) else CERT_FP[cert]
 
 
 class Runner:
@@ -124,7 +129,7 @@ class Runner:
         return ["err", type(exc).__name__]
 
     async def call(self, client, kind: str, hops: list, content: bytes = b"CONTENT", token: str | None = "TOK", query: str = "",
-                   final: bytes = b"20 text/gemini\r\nhello\n", steps_for=None, mime: str = "text/gemini"):
+                   final: bytes = b"20 text/gemini\r\nhello\n", steps_for=None, mime: str = "text/gemini", path: str = "/hop0"):
         """one client call; hops = [[h, p, cert, patch], …] (a redirect chain when longer than 1).
         `steps_for(i, reply)` gives the byte-level script of hop i (default: read the request line, reply, close).
         A loader patch is process-wide for the duration of the call, so it is honoured on single-hop calls only.
@@ -139,7 +144,7 @@ class Runner:
             tail = [["close"]] if reply[:1] == b"2" else [["read_eof", 2.0], ["close"]]
             steps = steps_for(i, reply) if steps_for else [["read_request", 3.0], ["send", reply]] + tail
             self.peers[p].push(CERTS[cert], steps)
-        u = self.url(hops[0][0], hops[0][1], "/hop0" + query)
+        u = self.url(hops[0][0], hops[0][1], path + query)
         mode = hops[0][3] if len(hops) == 1 else ""
         try:
             with T.broken_cert_loader(mode):
@@ -157,11 +162,67 @@ class Runner:
         return res, u
 
 
+async def _par(self, client_a, client_b, call_a, call_b, slow: bool):
+    """two OVERLAPPING single calls (asyncio.gather), on one client object or on two clients sharing the store.
+    Which connection is shown which certificate is decided by the accept order, so the observation is per CONNECTION:
+    [host.port:presented, result of the call that made it, did the peer receive a request]."""
+    import time as _time
+
+    from nauyaca.security.tofu import TOFUDatabase
+
+    orig = TOFUDatabase.verify
+    if slow:
+        def slow_verify(db, *a, **k):      # a slow disk / busy database: the answer arrives a little late
+            r = orig(db, *a, **k)
+            _time.sleep(0.03)
+            return r
+        TOFUDatabase.verify = slow_verify
+    try:
+        outs = await asyncio.gather(
+            self.call(client_a, call_a[0], [[call_a[1], call_a[2], call_a[3], ""]], path="/pa"),
+            self.call(client_b, call_b[0], [[call_b[1], call_b[2], call_b[3], ""]], path="/pb"))
+    finally:
+        TOFUDatabase.verify = orig
+    results = [o[0][:1] if o[0][0] == "ok" else o[0] for o in outs]
+    logs = self.take_logs()
+    calls = [call_a, call_b]
+    assign: dict = {}
+    for ci, path in enumerate((b"/pa", b"/pb")):
+        cand = [j for j, e in enumerate(logs) if path in e["rx"] and j not in assign.values()]
+        if cand:
+            assign[ci] = cand[0]
+    for ci, res in enumerate(results):
+        if ci not in assign and res[0] == "changed":
+            cand = [j for j, e in enumerate(logs) if j not in assign.values() and self.ports[calls[ci][2]] == e["port"]
+                    and CERT_FP[CERTS.index(e["cert"])] == res[2]]
+            if cand:
+                assign[ci] = cand[0]
+    for ci in range(2):
+        if ci not in assign:
+            cand = [j for j, e in enumerate(logs) if j not in assign.values() and self.ports[calls[ci][2]] == e["port"]]
+            if cand:
+                assign[ci] = cand[0]
+    ents = []
+    for ci, res in enumerate(results):
+        key = (calls[ci][1], calls[ci][2])
+        if ci in assign:
+            e = logs[assign[ci]]
+            ents.append([par_tag(key, _presented(CERTS.index(e["cert"]), "")), res, len(e["rx"]) > 0])
+        else:
+            ents.append([par_tag(key, "?"), res, False])
+    return {"par": sorted(ents, key=repr), "result": None, "conns": [], "detail": {"certs": [e["cert"] for e in logs], "n_conns": len(logs)}}
+
+
+Runner.par = _par
+
+
 def op_keys(op):
     if op[0] in ("get", "upload"):
         return [(op[1], op[2])]
     if op[0] == "chain":
         return [(h[0], h[1]) for h in op[1]]
+    if op[0] == "par":
+        return [(op[1][1], op[1][2]), (op[2][1], op[2][2])]
     return []
 
 
@@ -173,21 +234,30 @@ def model_line(case) -> str:
             pr = _presented(op[3], op[4])
             words.append(f"{'g' if k == 'get' else 'u'}:{op[1]}.{op[2]}.{'x' if pr is None else pr}")
         elif k == "chain":
-            words.append("r:" + "/".join(f"{h[0]}.{h[1]}.{'x' if _presented(h[2], h[3]) is None else h[2]}" for h in op[1]))
+            words.append("r:" + "/".join(f"{h[0]}.{h[1]}.{'x' if _presented(h[2], h[3]) is None else _presented(h[2], h[3])}" for h in op[1]))
         elif k == "trust":
-            words.append(f"t:{op[1]}.{op[2]}={op[3]}")
+            words.append(f"t:{op[1]}.{op[2]}={CERT_FP[op[3]]}")
         elif k == "revoke":
             words.append(f"v:{op[1]}.{op[2]}")
         elif k == "revoke_host":
             words.append(f"vh:{op[1]}")
         elif k == "clear":
             words.append("c")
+        elif k == "par":
+            def cw(c):
+                pr = _presented(c[3], "")
+                return f"{'g' if c[0] == 'get' else 'u'}.{c[1]}.{c[2]}.{'x' if pr is None else pr}"
+            words.append(f"pa:{cw(op[1])}:{cw(op[2])}")
         elif k == "import":
             ents = ",".join(f"{e[0]}.{e[1]}={e[2]}" for e in op[3]) or "-"
             words.append(f"{'im' if op[1] == 'merge' else 'ir'}:{'u' if op[2] == 'update' else 's'}:{ents}")
         else:
             raise ValueError(op)
     return " ".join(words)
+
+
+def par_tag(key, pres):
+    return f"{key[0]}.{key[1]}:{'x' if pres is None else pres}"
 
 
 def parse_store(s: str):
@@ -207,6 +277,25 @@ def expected_steps(case, out: str):
     toks = out.split(" ")[1:]
     assert len(toks) == len(case["ops"]), (out, case)
     for op, tok in zip(case["ops"], toks):
+        if op[0] == "par":
+            keys = op_keys(op)
+            alts = []
+            for alt in tok.split("~"):
+                recs, store = alt.split(";")
+                ents = []
+                for c, key, r in zip(op[1:3], keys, recs.split(",")):
+                    sent = int(r.rsplit(":", 1)[1]) > 0
+                    if r.startswith("A"):
+                        res = ["ok"]
+                    elif r.startswith("C"):
+                        a, b = r[1:].rsplit(":", 1)[0].split("/")
+                        res = ["changed", int(a), int(b), key[0], key[1]]
+                    else:
+                        res = ["refused"]
+                    ents.append([par_tag(key, _presented(c[3], "")), res, sent])
+                alts.append({"par": sorted(ents, key=repr), "rows": parse_store(store)})
+            steps.append({"alts": alts})
+            continue
         recs, store = tok.split(";")
         st = {"rows": parse_store(store), "result": None, "conns": []}
         if recs != "-":
@@ -256,7 +345,7 @@ class Histories(Family):
     # -- generation ----------------------------------------------------------------
     def rand_hop(self, rng, keys, allow_patch=True):
         h, p = rng.choice(keys)
-        cert = rng.choice([0, 0, 1, 1, 2, 3])
+        cert = rng.choice([0, 0, 1, 1, 2, 3, 4, 5])
         patch = ""
         if allow_patch and rng.random() < 0.08:
             patch = rng.choice(["raise", "none"])
@@ -273,7 +362,7 @@ class Histories(Family):
             return ["chain", [self.rand_hop(rng, keys, allow_patch=False) for _ in range(n)]]
         if r < 0.70:
             h, p = rng.choice(keys)
-            return ["trust", h, p, rng.choice([0, 1, 2])]
+            return ["trust", h, p, rng.choice(READABLE)]
         if r < 0.78:
             h, p = rng.choice(keys)
             return ["revoke", h, p]
@@ -292,19 +381,41 @@ class Histories(Family):
         mx = self.max_len_thorough if thorough else self.max_len_quick
         # boundary histories first: the witnesses of the property text, for every certificate kind (a random few per shard)
         b = []
-        for c1 in range(4):
-            for c2 in range(4):
+        for c1 in range(6):
+            for c2 in range(6):
                 b.append({"tofu": True, "fresh": False, "ops": [["get", 1, 0, c1, ""], ["get", 1, 0, c2, ""], ["upload", 1, 0, c2, ""], ["get", 1, 1, c2, ""]]})
         b.append({"tofu": True, "fresh": True, "ops": [["import", "merge", "none", [[0, 0, 4]]], ["get", 0, 0, 0, ""], ["import", "merge", "update", [[0, 0, 0]]], ["get", 0, 0, 0, ""]]})
         b.append({"tofu": True, "fresh": False, "ops": [["import", "replace", "none", [[1, 0, 5]]], ["upload", 1, 0, 1, ""], ["chain", [[0, 0, 0, ""], [1, 0, 1, ""]]]]})
         b.append({"tofu": True, "fresh": False, "ops": [["get", 0, 0, 0, "none"], ["get", 0, 0, 0, "raise"], ["get", 0, 0, 0, ""], ["upload", 0, 0, 1, "none"], ["get", 0, 0, 1, "raise"]]})
-        nb = min(len(b), max(2, n // 8))
-        yield from rng.sample(b, nb)
+        # overlapping first connections to one unpinned host:port, every pair of readable certificates
+        for c1 in READABLE:
+            for c2 in READABLE:
+                for k2 in ("get", "upload"):
+                    for two in (False, True):
+                        b.append({"tofu": True, "fresh": False, "ops": [["par", ["get", 2, 1, c1], [k2, 2, 1, c2], two, True]]})
+        nb = 0
+        for c in self.share(b):          # deterministic list: shared out over the shards, never cut
+            nb += 1
+            yield c
         for i in range(max(0, n - nb)):
             allkeys = [(h, p) for h in range(3) for p in range(2)]
             keys = rng.sample(allkeys, rng.choice([1, 2, 2, 3, 4, 6]))
             ln = rng.randint(1, mx) if rng.random() < 0.8 else mx
-            yield {"tofu": rng.random() < 0.92, "fresh": rng.random() < 0.25, "ops": [self.rand_op(rng, keys) for _ in range(ln)]}
+            ops = [self.rand_op(rng, keys) for _ in range(ln)]
+            if rng.random() < 0.3:
+                # the history ends with two OVERLAPPING calls (the model cannot continue after a nondeterministic step)
+                h, p = rng.choice(keys)
+                c1 = rng.choice(READABLE + [3])
+                c2 = c1 if rng.random() < 0.25 else rng.choice(READABLE + [3])
+                if rng.random() < 0.5:
+                    ops.append(["revoke", h, p])     # make it a FIRST connection more often
+                if rng.random() < 0.85:
+                    par = ["par", [rng.choice(["get", "upload"]), h, p, c1], [rng.choice(["get", "upload"]), h, p, c2]]
+                else:
+                    h2 = rng.randrange(3)
+                    par = ["par", [rng.choice(["get", "upload"]), h, 0, c1], [rng.choice(["get", "upload"]), h2, 1, c2]]   # different ports
+                ops.append(par + [rng.random() < 0.3, rng.random() < 0.7])
+            yield {"tofu": rng.random() < 0.92, "fresh": rng.random() < 0.25, "ops": ops}
 
     # -- the real code ---------------------------------------------------------------
     def impl(self, case):
@@ -330,7 +441,9 @@ class Histories(Family):
             for op in case["ops"]:
                 k = op[0]
                 st = {"result": None, "conns": []}
-                if k in ("get", "upload", "chain"):
+                if k == "par":
+                    st = await R.par(client, mk() if op[3] else client, op[1], op[2], op[4])
+                elif k in ("get", "upload", "chain"):
                     if case["fresh"]:
                         client = mk()
                     hops = [op[1:5]] if k != "chain" else op[1]
@@ -380,7 +493,11 @@ class Histories(Family):
         if len(expected) != len(obs):
             return False
         for e, o in zip(expected, obs):
-            if e["rows"] != o["rows"] or e["result"] != o["result"] or e["conns"] != o["conns"]:
+            if "alts" in e:
+                # two overlapping calls: any serialisation is a legal outcome
+                if "par" not in o or not any(a["par"] == o["par"] and a["rows"] == o["rows"] for a in e["alts"]):
+                    return False
+            elif e["rows"] != o["rows"] or e["result"] != o["result"] or e["conns"] != o["conns"]:
                 return False
         return True
 
@@ -391,7 +508,43 @@ class Histories(Family):
             after = {(r[0], r[1]): r[2] for r in st["rows"]}
             k = op[0]
             where = f"step {i} {op!r}"
-            if k in ("get", "upload", "chain"):
+            if k == "par":
+                if not case["tofu"]:
+                    if after != cur:
+                        return ("tofu-off-store-written", f"{where}: TOFU disabled but the store changed {cur} -> {after}")
+                    cur = after
+                    continue
+                groups: dict = {}
+                for tag, res, sent in st["par"]:
+                    kk, pres = tag.split(":")
+                    key = tuple(int(x) for x in kk.split("."))
+                    groups.setdefault(key, []).append((None if pres == "x" else pres if pres == "?" else int(pres), res))
+                for key, grp in groups.items():
+                    pin = cur.get(key)
+                    acc = [pres for pres, res in grp if res[0] == "ok"]
+                    if None in acc:
+                        return ("unreadable-accepted", f"{where}: a connection to {key} presented an unreadable certificate and was accepted")
+                    if "?" in acc:
+                        continue
+                    if pin is not None:
+                        if any(a != pin for a in acc):
+                            return ("accepted-with-different-cert", f"{where}: {key} is pinned to {pin}; overlapping connections presenting {acc} were accepted")
+                        if after.get(key) != pin:
+                            return ("pins-changed-on-failure", f"{where}: pin of {key} was {pin}, is {after.get(key)} after the overlapping calls {st['par']}")
+                    else:
+                        if len(set(acc)) > 1:
+                            return ("concurrent-first-use-two-certs", f"{where}: two overlapping first connections to the unpinned {key} presented the different "
+                                    f"certificates {sorted(set(acc))} and BOTH were accepted (pin afterwards: {after.get(key)}); after the first one pinned, the other had to fail")
+                        if acc and after.get(key) != acc[0]:
+                            return ("first-use-not-pinned", f"{where}: first connection(s) to {key} presented {acc[0]}, the pin afterwards is {after.get(key)}")
+                        for pres, res in grp:
+                            if acc and res[0] == "changed" and res[1:3] != [acc[0], pres]:
+                                return ("changed-error-wrong-fingerprints", f"{where}: the error names {res[1:3]} instead of old={acc[0]} new={pres}")
+                bad = [kk for kk in set(after) | set(cur) if kk not in groups and after.get(kk) != cur.get(kk)]
+                if bad:
+                    return ("other-key-influenced", f"{where}: pins of {bad} changed by calls that did not name them")
+                cur = after
+            elif k in ("get", "upload", "chain"):
                 hops = [op[1:5]] if k != "chain" else op[1]
                 res, conns = st["result"], st["conns"]
                 if not case["tofu"]:
@@ -451,7 +604,9 @@ class Histories(Family):
     def key(self, case, obs):
         kinds = set()
         for op, st in zip(case["ops"], obs):
-            if st["result"] is not None:
+            if "par" in st:
+                kinds.add("par:" + "+".join(sorted(e[1][0] for e in st["par"])))
+            elif st["result"] is not None:
                 kinds.add(f"{op[0]}:{st['result'][0]}")
             elif op[0] == "import":
                 kinds.add(f"import-{op[1]}-{op[2]}")
@@ -467,8 +622,9 @@ class SmallScope(Family):
     parallel = True        # ports are bound per process in setup(); the enumeration is shared out, not repeated
     shared_ctx = True
 
-    ALPHA = ([["get", h, 0, c, ""] for h in (0, 1) for c in (0, 1)] + [["revoke", 0, 0], ["revoke", 1, 0], ["clear"],
-             ["trust", 0, 0, 1], ["import", "merge", "update", [[1, 0, 0]]]])
+    # the two certificates: RSA (valid) and the expired one
+    ALPHA = ([["get", h, 0, c, ""] for h in (0, 1) for c in (0, 4)] + [["revoke", 0, 0], ["revoke", 1, 0], ["clear"],
+             ["trust", 0, 0, 4], ["import", "merge", "update", [[1, 0, 0]]]])
 
     def setup(self):
         self.R = Runner()
